@@ -22,6 +22,15 @@ ASSUMPTIONS = [
 
 def gen(rng, tier, no, wide=False):
     case = CP.gen_cp_case(rng)
+    if rng.random() < 0.08:
+        # more than a thousand events ahead of the interesting ones in the file (the archive holds the frame as text;
+        # whatever is inferred from its beginning must hold for its end)
+        r0 = case["params"]["rank"]
+        ev = case["ranks"][r0]
+        xs = [e for e in ev if e.get("ph") == "X" and "dur" in e]
+        hi = max(e["ts"] + e["dur"] for e in xs) + 10
+        host = next(e for e in xs if e.get("cat") == "cpu_op")
+        ev[1:1] = [{"ph": "X", "cat": "cpu_op", "name": "aten::fill_", "pid": host["pid"], "tid": host["tid"], "ts": hi + 3 * k, "dur": 2} for k in range(1100)]
     if rng.random() < 0.3:
         # clock jitter as real traces have it: a few events end one time unit late (a child past its parent, a kernel
         # into the next one of its stream). The analysis tolerates the resulting negative edge weights and reports
